@@ -49,7 +49,10 @@ def run(ctx, progs):
         none1(ctx, prog, cfg)
         shapes.viewcmp1(ctx, prog, cfg)
         for a, b in TWINS:
-            shapes.twin(ctx, "TWIN", prog, a, b, cfg)
+            # calls with argument provenance and returned values; the guards of the accessors are
+            # decided semantically by NONE1/ACC1/MOD1, so that an equivalent re-spelling of a guard
+            # in one twin is not reported
+            shapes.twin(ctx, "TWIN", prog, a, b, cfg, guards=False)
 
 
 def deriv1(ctx, prog, cfg):
